@@ -92,5 +92,7 @@ class SearchModel:
 
         res = one_pass(lambda f: f)
         if not res and norm_on:
-            res = one_pass(normalize)
+            # the Wordnet's own normalizer (norm_on may be a callable) transforms the query of the second pass; the
+            # stored normalized forms are what the default normalizer produced when the lexicon was added
+            res = one_pass(norm_on if callable(norm_on) else normalize)
         return set(res)
